@@ -184,7 +184,8 @@ def run(chk, repo, tier):
             n3 += factor_rule(chk, repo, 'C01.R3', fi, mode, stmts, rank, const_scale=True)
         # empty chain
         g = fi.node.body[0] if not isinstance(fi.node.body[0], ast.Expr) else fi.node.body[1]
-        ok = isinstance(g, ast.If) and norm(g.test) == 'len(self.A) == 0' and len(g.body) == 1 and \
+        ok = isinstance(g, ast.If) and norm(g.test) in ('len(self.A) == 0', 'self.nsites == 0', 'not self.A', 'len(self.A) < 1',
+                                                        'self.nsites < 1') and len(g.body) == 1 and \
             isinstance(g.body[0], ast.Return) and isinstance(g.body[0].value, ast.Constant) and \
             isinstance(g.body[0].value.value, (int, float)) and g.body[0].value.value >= 0
         chk.ob('C01.R3', where(repo, fi, g), f'{fi.name}: the empty chain returns a non-negative constant', ok,
